@@ -490,6 +490,27 @@ Definition rem_mag (a b : targ) : M_ outcome :=
            end
   end.
 
+(* ------------------------------------------------------------------ Buffer -> Box<[Word]> (buffer.rs into_boxed_slice) *)
+(** Buffer::into_boxed_slice: the block is reallocated to exactly len words - `realloc` is handed the OLD
+    layout (capacity words), which must be the layout of the allocation (guard 11) -, the Box<[Word]> owns
+    (block, len words) and its drop frees the block with the layout of len words (again guard 11: a block
+    is freed with the size it was last (re)allocated with).  An empty buffer is dropped, the box owns nothing.
+    Users: ConstLargeDivisor::new, ReducedLarge::{one, from_ubig}, inv_large, convert_from_normalized. *)
+Definition into_boxed_slice (b : buffer) : M_ (option Z * list Z) :=
+  if len (bws b) =? 0 then drop_buffer b ;;; ret (None, [])
+  else deallocate_raw (bptr b) (bcap b) ;;; p <- raw_alloc (len (bws b)) ;; ret (Some p, bws b).
+Definition drop_box (bx : option Z * list Z) : M_ unit :=
+  match fst bx with Some p => deallocate_raw p (len (snd bx)) | None => ret tt end.
+
+(** ConstDivisor::new(x) followed by ConstDivisor::value() and the drop of the divisor: the buffer of a large x
+    becomes the boxed normalized divisor, value() copies it into a fresh buffer *)
+Definition divisor_value (x : targ) : M_ outcome :=
+  match x with
+  | TSmall dw | TRefSmall dw => if dw =? 0 then ret (Thrown DivideBy0) else ret (Done (from_dword dw))
+  | TLarge bf => bx <- into_boxed_slice bf ;; nb <- buffer_from (snd bx) ;; r <- from_buffer nb ;; drop_box bx ;;; ret (Done r)
+  | _ => bad 30
+  end.
+
 (* ------------------------------------------------------------------ the pool machine *)
 Inductive opnd := ByVal (i : nat) | ByRef (i : nat) | ByStatic (s : sign) (ws : list Z).
 Inductive ctor := CWords (s : sign) (ws : list Z) | CDword (s : sign) (dw : Z) | COnes (n : Z).
@@ -508,6 +529,7 @@ Inductive op :=
 | OShr (d : nat) (a : opnd) (n : Z)
 | OSetBit (d : nat) (n : Z)
 | OClrBit (d : nat) (n : Z)
+| ODivisor (d b : nat)
 | OInstall (d : nat) (s : sign) (ws : list Z) (cap : Z).
 
 Fixpoint set_nth (i : nat) (x : repr) (l : list repr) : list repr :=
@@ -607,6 +629,7 @@ Definition step (o : op) (pool : list repr) : M_ (list repr * option reason) :=
   | OShr d a n => let '((_, x), p1) := fetch a pool in r <- shr_mag x n ;; p <- store d r p1 ;; ret (p, None)
   | OSetBit d n => let '((_, x), p1) := fetch (ByVal d) pool in r <- set_bit x n ;; p <- store d r p1 ;; ret (p, None)
   | OClrBit d n => let '((_, x), p1) := fetch (ByVal d) pool in r <- clear_bit x n ;; p <- store d r p1 ;; ret (p, None)
+  | ODivisor d b => let '((_, x), p1) := fetch (ByVal b) pool in o <- divisor_value x ;; store_out d o p1
   | OInstall d s ws cap =>
       r <- install s ws cap ;; guard 100 (repr_ok_b r) ;;; p <- store d r pool ;; ret (p, None)
   end.
